@@ -34,12 +34,12 @@ ASSUMPTIONS = [
 
 
 def budget(tier):
-    return 150 if tier == "quick" else 1500
+    return 150 if tier == "quick" else 4000
 
 
 @st.composite
 def strategy(draw, tier="quick"):
-    return {"backend": draw(st.sampled_from(["sqlite", "sqlite", "peewee"])), "ops": draw(crash.history_strategy(max_ops=60))}
+    return {"backend": draw(st.sampled_from(["sqlite", "sqlite", "peewee"])), "ops": draw(crash.history_strategy(max_ops=60 if tier == "quick" else 120))}
 
 
 def known_key(case, v):
@@ -190,9 +190,9 @@ def run_case(case):
 
 def extra_phases(tier, seed, jobs):
     tasks = []
-    n_hist = 16 if tier == "quick" else 96
+    n_hist = 16 if tier == "quick" else 160
     for h in range(n_hist):
-        tasks.append({"seed": seed * 10007 + h, "backend": ["sqlite", "peewee"][h % 2], "kills": 6 if tier == "quick" else 10, "timer": tier == "thorough" and h % 3 == 0, "n_ops": 60})
+        tasks.append({"seed": seed * 10007 + h, "backend": ["sqlite", "peewee"][h % 2], "kills": 6 if tier == "quick" else 10, "timer": tier == "thorough" and h % 3 == 0, "n_ops": 60 if tier == "quick" else 120})
     return [("kills", "phase_kills", tasks)]
 
 
